@@ -466,8 +466,132 @@ fn dft_scalar(limit: usize, big: bool) -> Option<String> {
     None
 }
 
+
+// ---- operation count (C05, bounded stand-in: the 64 n log2 n clause is not decided by any contract) --------------------
+// An instrumented element type counts every +, - and * of the element type that one chunk of the real portable planned
+// transform performs.  Candidates above the exhaustive limit are chosen from the REAL recipes of the real planner (cheap:
+// no twiddles are computed) by an estimated cost ratio; the verdict is always the measured count.
+pub mod opcount {
+    use super::*;
+    use crate::num_traits::{FromPrimitive, Num, One, Signed, ToPrimitive, Zero};
+    use crate::plan::Recipe;
+    use std::cell::Cell;
+    use std::ops::{Add, Div, Mul, Neg, Rem, Sub};
+    thread_local! { static OPS: Cell<u64> = Cell::new(0); }
+    fn bump() { OPS.with(|c| c.set(c.get() + 1)); }
+    #[derive(Copy, Clone, Debug, PartialEq, PartialOrd)]
+    pub struct Cnt(pub f64);
+    impl Add for Cnt { type Output = Cnt; fn add(self, o: Cnt) -> Cnt { bump(); Cnt(self.0 + o.0) } }
+    impl Sub for Cnt { type Output = Cnt; fn sub(self, o: Cnt) -> Cnt { bump(); Cnt(self.0 - o.0) } }
+    impl Mul for Cnt { type Output = Cnt; fn mul(self, o: Cnt) -> Cnt { bump(); Cnt(self.0 * o.0) } }
+    impl Div for Cnt { type Output = Cnt; fn div(self, o: Cnt) -> Cnt { Cnt(self.0 / o.0) } }
+    impl Rem for Cnt { type Output = Cnt; fn rem(self, o: Cnt) -> Cnt { Cnt(self.0 % o.0) } }
+    impl Neg for Cnt { type Output = Cnt; fn neg(self) -> Cnt { Cnt(-self.0) } }
+    impl Zero for Cnt { fn zero() -> Cnt { Cnt(0.0) } fn is_zero(&self) -> bool { self.0 == 0.0 } }
+    impl One for Cnt { fn one() -> Cnt { Cnt(1.0) } }
+    impl Num for Cnt { type FromStrRadixErr = (); fn from_str_radix(_: &str, _: u32) -> Result<Cnt, ()> { Err(()) } }
+    impl Signed for Cnt {
+        fn abs(&self) -> Cnt { Cnt(self.0.abs()) }
+        fn abs_sub(&self, o: &Cnt) -> Cnt { Cnt((self.0 - o.0).max(0.0)) }
+        fn signum(&self) -> Cnt { Cnt(self.0.signum()) }
+        fn is_positive(&self) -> bool { self.0 > 0.0 }
+        fn is_negative(&self) -> bool { self.0 < 0.0 }
+    }
+    impl ToPrimitive for Cnt {
+        fn to_i64(&self) -> Option<i64> { self.0.to_i64() }
+        fn to_u64(&self) -> Option<u64> { self.0.to_u64() }
+        fn to_f64(&self) -> Option<f64> { Some(self.0) }
+    }
+    impl FromPrimitive for Cnt {
+        fn from_i64(n: i64) -> Option<Cnt> { Some(Cnt(n as f64)) }
+        fn from_u64(n: u64) -> Option<Cnt> { Some(Cnt(n as f64)) }
+        fn from_f64(n: f64) -> Option<Cnt> { Some(Cnt(n)) }
+        fn from_f32(n: f32) -> Option<Cnt> { Some(Cnt(n as f64)) }
+    }
+
+    pub fn budget(n: usize) -> f64 { 64.0 * (n as f64) * (n as f64).log2() }
+
+    /// measured operation count of one chunk, both through process_with_scratch and process_immutable_with_scratch
+    pub fn measure(n: usize) -> Result<(u64, u64), String> {
+        let r = quiet(|| {
+            let f = crate::FftPlannerScalar::<Cnt>::new().plan_fft_forward(n);
+            let mk = || -> Vec<Complex<Cnt>> { (0..n).map(|i| Complex::new(Cnt(0.25 + 0.37 * (i % 97) as f64), Cnt(-1.5 + 0.73 * (i % 89) as f64))).collect() };
+            let mut a = mk();
+            let mut s = vec![Complex::new(Cnt(0.0), Cnt(0.0)); f.get_inplace_scratch_len()];
+            OPS.with(|c| c.set(0));
+            f.process_with_scratch(&mut a, &mut s);
+            let c1 = OPS.with(|c| c.get());
+            let a2 = mk();
+            let mut b = vec![Complex::new(Cnt(0.0), Cnt(0.0)); n];
+            let mut s2 = vec![Complex::new(Cnt(0.0), Cnt(0.0)); f.get_immutable_scratch_len()];
+            OPS.with(|c| c.set(0));
+            f.process_immutable_with_scratch(&a2, &mut b, &mut s2);
+            let c2 = OPS.with(|c| c.get());
+            (c1, c2)
+        });
+        r.map_err(|e| format!("FftPlannerScalar::<Counted>::plan_fft_forward({n}) / process panicked: {}", panic_msg(e)))
+    }
+
+    pub fn check(n: usize) -> Option<String> {
+        if n < 2 { return None; }
+        match measure(n) {
+            Err(e) => Some(e),
+            Ok((c1, c2)) => {
+                let b = budget(n);
+                if (c1 as f64) > b || (c2 as f64) > b {
+                    Some(format!("FftPlannerScalar (portable) n = {n}: one chunk performs {c1} (in place) / {c2} (immutable input) additions, subtractions and multiplications of the element type; budget 64*n*log2(n) = {:.0} (ratio {:.2})", b, (c1.max(c2) as f64) / b * 64.0))
+                } else { None }
+            }
+        }
+    }
+
+    // rough cost of a recipe, only used to RANK candidates
+    fn blen(r: &Recipe) -> f64 { r.len() as f64 }
+    pub fn est(r: &Recipe) -> f64 {
+        match r {
+            Recipe::MixedRadix { left_fft, right_fft } | Recipe::GoodThomasAlgorithm { left_fft, right_fft }
+            | Recipe::MixedRadixSmall { left_fft, right_fft } | Recipe::GoodThomasAlgorithmSmall { left_fft, right_fft } =>
+                blen(right_fft) * est(left_fft) + blen(left_fft) * est(right_fft) + 6.0 * blen(r),
+            Recipe::RadersAlgorithm { inner_fft } => 2.0 * est(inner_fft) + 12.0 * blen(r),
+            Recipe::BluesteinsAlgorithm { inner_fft, .. } => 2.0 * est(inner_fft) + 14.0 * blen(inner_fft),
+            Recipe::RadixN { factors, base_fft } => (blen(r) / blen(base_fft)) * est(base_fft) + 9.0 * blen(r) * factors.len() as f64,
+            Recipe::Radix4 { k, base_fft } => (blen(r) / blen(base_fft)) * est(base_fft) + 9.0 * blen(r) * (*k as f64),
+            Recipe::Dft(n) => 8.0 * (*n as f64) * (*n as f64),
+            other => { let n = other.len() as f64; 5.0 * n * n.log2().max(1.0) }
+        }
+    }
+
+    pub fn search(limit: usize, upto: usize, top: usize) -> Option<String> {
+        let mut worst = (0.0f64, 0usize);
+        for n in 2..limit {
+            if let Some(x) = check(n) { return Some(x); }
+            if n % 7 == 3 || n < 64 { if let Ok((c1, c2)) = measure(n) { let r = (c1.max(c2) as f64) / budget(n) * 64.0; if r > worst.0 { worst = (r, n); } } }
+        }
+        eprintln!("INFO opcount worst sampled ratio below {limit}: {:.2} n log2 n at n={}", worst.0, worst.1);
+        if upto > limit && top > 0 {
+            let mut planner = crate::FftPlannerScalar::<f64>::new();
+            let mut cands: Vec<(f64, usize)> = Vec::new();
+            for n in limit..upto {
+                let r = quiet(|| planner.verif_design(n));
+                let r = match r { Ok(r) => r, Err(e) => return Some(format!("FftPlannerScalar::<f64>::design_fft_for_len({n}) panicked: {}", panic_msg(e))) };
+                cands.push((est(&r) / budget(n), n));
+            }
+            cands.sort_by(|a, b| b.0.partial_cmp(&a.0).unwrap());
+            for &(ratio, n) in cands.iter().take(top) {
+                if let Some(x) = check(n) { return Some(x); }
+                if let Ok((c1, c2)) = measure(n) { eprintln!("INFO opcount candidate n={n} estimated {:.1} n log2 n, measured {:.2} n log2 n", ratio * 64.0, (c1.max(c2) as f64) / budget(n) * 64.0); }
+            }
+        }
+        None
+    }
+}
+
 pub fn search(which: &str) -> Option<String> {
     if simd::known(which) { return simd::search(which); }
+    if let Some(rest) = which.strip_prefix("opcount:") {
+        let v: Vec<usize> = rest.split(',').map(|x| x.parse().unwrap_or(0)).collect();
+        return opcount::search(*v.get(0).unwrap_or(&256), *v.get(1).unwrap_or(&0), *v.get(2).unwrap_or(&0));
+    }
     if let Some(rest) = which.strip_prefix("dft_scalar:") { let big = rest.ends_with('+'); return dft_scalar(rest.trim_end_matches('+').parse().unwrap_or(128), big); }
     if let Some(rest) = which.strip_prefix("chunks:") { return chunks(rest.parse().unwrap_or(64)); }
     if which == "helpers_small" {
@@ -509,7 +633,7 @@ pub fn search(which: &str) -> Option<String> {
     }
 }
 pub fn known(which: &str) -> bool {
-    simd::known(which) || which.starts_with("dft_scalar:") || which.starts_with("partition:") || which.starts_with("plan_scalar:") || which.starts_with("plan_history:") || which.starts_with("shapes:") || which.starts_with("chunks:") || which == "helpers_small" || which == "sqrt_limit"
+    simd::known(which) || which.starts_with("opcount:") || which.starts_with("dft_scalar:") || which.starts_with("partition:") || which.starts_with("plan_scalar:") || which.starts_with("plan_history:") || which.starts_with("shapes:") || which.starts_with("chunks:") || which == "helpers_small" || which == "sqrt_limit"
         || matches!(which, "MixedRadix" | "MixedRadixSmall" | "GoodThomasAlgorithm" | "GoodThomasAlgorithmSmall" | "Radix4" | "Radix3" | "RadersAlgorithm" | "BluesteinsAlgorithm")
 }
 
